@@ -2,6 +2,9 @@
 //!
 //! storage_history  opts base ops      -> one field per op (+ reload listing after every successful save)
 //! build            opts pages info    -> bytes, reload view
+//! storage_save_to  opts base ops      -> per `S` op three fields: result of File::save_to on a temporary path (`ok` | `!Kind`), result of
+//!                                        Storage::save for the same history on a twin storage, `1`/`0` = the bytes on disk equal the twin's
+//!                                        last successfully saved bytes (the base before the first successful save)
 use crate::util::*;
 use crate::R;
 use pdf::file::{Storage, NoCache, NoLog, Trailer, Cache, Log, FileOptions};
@@ -201,6 +204,104 @@ where OC: Cache<pdf::error::Result<AnySync, Arc<PdfError>>>, SC: Cache<pdf::erro
 
 
 // ------------------------------------------------------------------------------------------------
+// the same history on a File opened through FileOptions and saved with File::save_to, next to a twin Storage saved with Storage::save
+
+trait Doc {
+    fn create_p(&mut self, v: Primitive) -> pdf::error::Result<PlainRef>;
+    fn update_p(&mut self, r: PlainRef, v: Primitive) -> pdf::error::Result<PlainRef>;
+    fn promise_p(&mut self) -> PromisedRef<Primitive>;
+    fn fulfill_p(&mut self, p: PromisedRef<Primitive>, v: Primitive) -> pdf::error::Result<PlainRef>;
+    fn resolve_p(&self, r: PlainRef) -> pdf::error::Result<Primitive>;
+    /// (result text, the bytes this save left behind: returned bytes / file content; None = nothing new)
+    fn save_p(&mut self) -> (Vec<u8>, Option<Vec<u8>>);
+}
+struct Twin<OC, SC, L> { st: Storage<Vec<u8>, OC, SC, L>, trailer: Trailer }
+impl<OC, SC, L> Doc for Twin<OC, SC, L>
+where OC: Cache<pdf::error::Result<AnySync, Arc<PdfError>>>, SC: Cache<pdf::error::Result<Arc<[u8]>, Arc<PdfError>>>, L: Log
+{
+    fn create_p(&mut self, v: Primitive) -> pdf::error::Result<PlainRef> { self.st.create(v).map(|rc| rc.get_ref().get_inner()) }
+    fn update_p(&mut self, r: PlainRef, v: Primitive) -> pdf::error::Result<PlainRef> { self.st.update(r, v).map(|rc| rc.get_ref().get_inner()) }
+    fn promise_p(&mut self) -> PromisedRef<Primitive> { self.st.promise::<Primitive>() }
+    fn fulfill_p(&mut self, p: PromisedRef<Primitive>, v: Primitive) -> pdf::error::Result<PlainRef> { self.st.fulfill(p, v).map(|rc| rc.get_ref().get_inner()) }
+    fn resolve_p(&self, r: PlainRef) -> pdf::error::Result<Primitive> { self.st.resolver().resolve(r) }
+    fn save_p(&mut self) -> (Vec<u8>, Option<Vec<u8>>) {
+        match self.st.save(&mut self.trailer) { Ok(b) => (b"ok".to_vec(), Some(b.to_vec())), Err(e) => (etext(&e), None) }
+    }
+}
+struct OnDisk<OC, SC, L> { file: pdf::file::File<Vec<u8>, OC, SC, L>, path: std::path::PathBuf }
+impl<OC, SC, L> Doc for OnDisk<OC, SC, L>
+where OC: Cache<pdf::error::Result<AnySync, Arc<PdfError>>>, SC: Cache<pdf::error::Result<Arc<[u8]>, Arc<PdfError>>>, L: Log
+{
+    fn create_p(&mut self, v: Primitive) -> pdf::error::Result<PlainRef> { self.file.create(v).map(|rc| rc.get_ref().get_inner()) }
+    fn update_p(&mut self, r: PlainRef, v: Primitive) -> pdf::error::Result<PlainRef> { self.file.update(r, v).map(|rc| rc.get_ref().get_inner()) }
+    fn promise_p(&mut self) -> PromisedRef<Primitive> { self.file.promise::<Primitive>() }
+    fn fulfill_p(&mut self, p: PromisedRef<Primitive>, v: Primitive) -> pdf::error::Result<PlainRef> { self.file.fulfill(p, v).map(|rc| rc.get_ref().get_inner()) }
+    fn resolve_p(&self, r: PlainRef) -> pdf::error::Result<Primitive> { self.file.resolver().resolve(r) }
+    fn save_p(&mut self) -> (Vec<u8>, Option<Vec<u8>>) {
+        let r = match self.file.save_to(&self.path) { Ok(()) => b"ok".to_vec(), Err(e) => etext(&e) };
+        (r, std::fs::read(&self.path).ok())
+    }
+}
+/// the write / save ops of a history (reads are skipped); one entry per `S`
+fn run_doc<D: Doc>(d: &mut D, ops: &[u8]) -> std::result::Result<Vec<(Vec<u8>, Option<Vec<u8>>)>, String> {
+    let mut handed: Vec<PlainRef> = vec![];
+    let mut promises: Vec<(PlainRef, Option<PromisedRef<Primitive>>)> = vec![];
+    let mut saves = vec![];
+    for line in ops.split(|&c| c == b'\n') {
+        if line.is_empty() { continue; }
+        let toks: Vec<&[u8]> = if line.first() == Some(&b'C') { line.splitn(2, |&c| c == b' ').collect() } else { line.splitn(3, |&c| c == b' ').collect() };
+        let val = |t: &[u8], d: &D, handed: &[PlainRef]| -> std::result::Result<Primitive, String> {
+            if t.first() == Some(&b'@') { d.resolve_p(refd(&t[1..], handed).ok_or("badref")?).map_err(|e| ekind(&e)) }
+            else { uncanon(t).ok_or_else(|| "badvalue".to_string()) }
+        };
+        // a failed write hands out nothing (as in storage_history)
+        match toks[0] {
+            b"C" => { let v = val(toks[1], d, &handed)?; if let Ok(r) = d.create_p(v) { handed.push(r); } }
+            b"U" => { let r = refd(toks[1], &handed).ok_or("badref")?; let v = val(toks[2], d, &handed)?; if let Ok(r) = d.update_p(r, v) { handed.push(r); } }
+            b"P" => { let p = d.promise_p(); let r = p.get_inner(); handed.push(r); promises.push((r, Some(p))); }
+            b"F" => {
+                let r = refd(toks[1], &handed).ok_or("badref")?;
+                let v = val(toks[2], d, &handed)?;
+                let p = promises.iter_mut().find(|(q, p)| *q == r && p.is_some()).and_then(|(_, p)| p.take()).ok_or("nopromise")?;
+                if let Ok(r) = d.fulfill_p(p, v) { handed.push(r); }
+            }
+            b"S" => saves.push(d.save_p()),
+            b"R" | b"G" => {}
+            _ => return Err("badop".into()),
+        }
+    }
+    Ok(saves)
+}
+static TMP_N: std::sync::atomic::AtomicUsize = std::sync::atomic::AtomicUsize::new(0);
+fn save_to_history<OC, SC, L>(f: &[Vec<u8>], opts: FileOptions<'static, OC, SC, L>, mk: &dyn Fn() -> (OC, SC, L)) -> R
+where OC: Cache<pdf::error::Result<AnySync, Arc<PdfError>>>, SC: Cache<pdf::error::Result<Arc<[u8]>, Arc<PdfError>>>, L: Log
+{
+    let base = f[1].clone();
+    let (oc, sc, l) = mk();
+    let mut st = Storage::with_cache(base.clone(), ParseOptions::strict(), oc, sc, l).map_err(|e| ekind(&e))?;
+    let td = st.load_storage_and_trailer().map_err(|e| ekind(&e))?;
+    let trailer = Trailer::from_primitive(Primitive::Dictionary(td), &st.resolver()).map_err(|e| ekind(&e))?;
+    let mut twin = Twin { st, trailer };
+    let expected = run_doc(&mut twin, fld(f, 2))?;
+    let file = opts.load(base.clone()).map_err(|e| format!("load:{}", ekind(&e)))?;
+    let path = std::env::temp_dir().join(format!("pdfh_save_to_{}_{}.pdf", std::process::id(), TMP_N.fetch_add(1, std::sync::atomic::Ordering::SeqCst)));
+    std::fs::write(&path, &base).map_err(|e| format!("tmp:{}", e))?;      // the previously saved revision
+    let mut doc = OnDisk { file, path: path.clone() };
+    let got = run_doc(&mut doc, fld(f, 2));
+    let _ = std::fs::remove_file(&path);
+    let got = got?;
+    let mut out = vec![];
+    let mut last_good = base;
+    for ((r, disk), (tr, tb)) in got.into_iter().zip(expected.into_iter()) {
+        if let Some(b) = tb { last_good = b; }
+        out.push(r);
+        out.push(tr);
+        out.push(if disk.as_deref() == Some(&last_good[..]) { b"1".to_vec() } else { format!("0:{}", disk.map(|d| d.len() as i64).unwrap_or(-1)).into_bytes() });
+    }
+    Ok(out)
+}
+
+// ------------------------------------------------------------------------------------------------
 // build: pages text + info text -> bytes, then the reloaded view
 //   page line:  mb=<l,b,r,t|-> cb=… tb=… rot=<int> ops=<letters> other=<canon dict>
 //   info line:  <Key>=<hex>   (Title Author Subject Keywords Creator Producer), `-` = no info dictionary
@@ -324,6 +425,13 @@ pub fn dispatch(mode: &str, f: &[Vec<u8>]) -> Option<R> {
                 history(f, &|| { let o = FileOptions::cached(); let _ = &o; (pdf::file::SyncCache::new(), pdf::file::SyncCache::new(), NoLog) })
             } else {
                 history(f, &|| (NoCache, NoCache, NoLog))
+            }
+        }
+        "storage_save_to" => {
+            if fld(f, 0).first() == Some(&b'c') {
+                save_to_history(f, FileOptions::cached(), &|| (pdf::file::SyncCache::new(), pdf::file::SyncCache::new(), NoLog))
+            } else {
+                save_to_history(f, FileOptions::uncached(), &|| (NoCache, NoCache, NoLog))
             }
         }
         // the bytes after the last successful save of a history (for the validator and for probing)
